@@ -283,7 +283,7 @@ func bonusAllowance(tier string) time.Duration {
 		return 0
 	}
 	if tier == "thorough" {
-		return 4 * time.Minute
+		return 90 * time.Second
 	}
 	return 10 * time.Second
 }
